@@ -150,6 +150,10 @@ def main(argv):
         os.environ["HOME"] = stray
     from twverif import import_target
     from twverif.monitors import audit, fakenet
+    if spec.get("logging"):
+        # the host application configures logging the usual way: records of the library's loggers are really built
+        import logging
+        logging.basicConfig(level=getattr(logging, spec["logging"]), stream=open(os.devnull, "w"))
     audit.install(spec.get("audit_log"))
     # virtual pauses: installed BEFORE the library is imported, so that `from time import sleep` binds it as well
     sleeps = []
